@@ -24,74 +24,12 @@ FORMS_C = [('', [['c']]), (';c>cc', [['c', 'd']])]
 
 
 def mk_scenario(forms, npub, max_polls, max_none, drops=0, restart=False, sym_state=False, planted=None):
+    forms = [[('', suf, tl) for suf, tl in fl] for fl in forms]
+    def check(ctx, data, st):
+        if planted == 'oracle': ctx.e.fail('planted', 'twin oracle', {'kind': 'planted'})
+        check_one_id_and_complete(ctx, data, st)
     def scenario(e):
-        fresh_world()
-        specs = []; plans = []
-        for i, fl in enumerate(forms):
-            k = e.choice(f'form{i}', len(fl)) if len(fl) > 1 else 0
-            suffix, tl = fl[k]
-            addr, tspec = Filter.parse_topics(f'tcp://s{i}:{5550 + 2 * i}{suffix}')
-            specs.append((addr, tspec)); plans.append(tl)
-        r = Z.ZMQReceiver(specs, 'cli')
-        subs = list(r.senders)
-        pubs = []       # per source: list of (mid, topics, inc)
-        nparts = 0
-        allparts = []
-        for i, sub in enumerate(subs):
-            prev = -1; inc = 0; lst = []
-            for k in range(npub):
-                if restart and k > 0 and e.choice(f'restart{i}', 2):
-                    inc += 1; prev = -1                      # new incarnation: ids start over (any value >= 0)
-                m = e.fresh_int(f'id{i}_{k}', 0)
-                e.assume(m > prev); prev = m
-                topics = plans[i][k % len(plans[i])]
-                lst.append((m, topics, inc))
-                for part in wire_parts(f'S{i}.{inc}', m, topics, i, inc):
-                    allparts.append((sub, part))
-            pubs.append(lst)
-        dropped = set()
-        for d in range(drops):
-            j = e.choice('drop', len(allparts) + 1)
-            if j < len(allparts): dropped.add(j)
-        for j, (sub, part) in enumerate(allparts):
-            if j not in dropped: sub.deliver(part)
-        World.oracle = PollOracle(e, max_polls, max_none)
-        state = None
-        if sym_state:
-            state = Z.ZMQStateRecv(e.fresh_int('state0', 0))
-        nsets = 0
-        try:
-            while True:
-                res = r.recv(state, None)
-                state = None
-                data, st = res
-                nsets += 1
-                e.observed(f'sets{nsets}')
-                idstar = st.msg_id
-                if planted == 'oracle': e.fail('planted', 'twin oracle', {'kind': 'planted'})
-                # (1) one id
-                for key, frame in data.items():
-                    tag = frame[1]
-                    if tag.mid != idstar:
-                        e.fail('mixed', f'set returned for id* contains {tag!r} (dst {key!r}); full set {data!r}',
-                               {'kind': 'mixed', 'form': [specs[tag.src][1] is None, specs[tag.src][1] == [("*", "*")]]})
-                # (2) per source exactly the subscribed topics published under that id
-                for i in range(len(subs)):
-                    tspec = specs[i][1]
-                    match = None
-                    for (m, topics, inc) in pubs[i]:
-                        if m == idstar: match = (m, topics, inc)
-                    got = sorted(k for k, f in data.items() if f[1].src == i)
-                    if match is None:
-                        e.fail('missing-source', f'set for id* has no publish of source {i} under that id; got {data!r}',
-                               {'kind': 'missing-source'})
-                    want = sorted(dst_name(tspec, t) for t in match[1] if subscribed(tspec, t))
-                    if got != want:
-                        e.fail('partial', f'source {i} published {match[1]} under id*, subscription {tspec}, delivered {got}',
-                               {'kind': 'partial', 'sub_all': tspec is None})
-        except PathEnd:
-            e.path_info.update(sets=nsets, trace=[str(t) for t in World.oracle.trace][:20])
-            raise
+        recv_stream(e, forms, npub, max_polls, max_none, check, drops=drops, restart=restart, sym_state=sym_state)
     return scenario
 
 
